@@ -319,8 +319,17 @@ def gen_graph_case(rng: random.Random, big=False):
     if method == "blockwise" and expected is not None and exp_mode == "subset":
         expected = present
     chunks = ([co.random_chunking(rng, batch)] if batch else []) + lchunks
+    # fan-in of the reduction trees (dask config `split_every`; None = dask's default 4): the per-cohort tree of
+    # flox.dask_array_ops._tree_reduce must cover every block of the cohort for every fan-in, not only powers of two
+    split_every = rng.choice([None, None, 2, 3, 3, 5, 6, 7])
     return {"kind": "graph", "labels": labels, "lshape": lshape, "batch": batch, "chunks": chunks, "method": method,
-            "expected": expected, "gen": f"graph:{pat}:{'2d' if two_d else '1d'}:b{batch}"}
+            "expected": expected, "split_every": split_every,
+            "gen": f"graph:{pat}:{'2d' if two_d else '1d'}:b{batch}"}
+
+
+def _se(case):
+    se = case.get("split_every")
+    return {"split_every": se} if se else {}
 
 
 def run_graph_case(case):
@@ -346,7 +355,7 @@ def run_graph_case(case):
         kw["expected_groups"] = exp
     out = {"direct": None, "find": None, "notes": []}
     try:
-        with dask.config.set(scheduler="sync"):
+        with dask.config.set(scheduler="sync", **_se(case)):
             result, groups = flox.groupby_reduce(arr, by, **kw)
     except Exception as e:  # noqa
         out["direct"] = f"groupby_reduce raised {type(e).__name__}: {str(e)[:160]}"
@@ -472,7 +481,7 @@ def run_graph_case(case):
 
     # --- provenance ----------------------------------------------------------------------------------------------------------------
     try:
-        with dask.config.set(scheduler="sync"):
+        with dask.config.set(scheduler="sync", **_se(case)):
             got = np.asarray(result.compute() if hasattr(result, "compute") else result)
     except Exception as e:  # noqa
         out["direct"] = f"compute raised {type(e).__name__}: {str(e)[:160]}"
@@ -579,7 +588,8 @@ class C09(Prop):
         mout = dict(zip(idx, outs))
         for i, (c, r) in enumerate(zip(cases, results)):
             rep.evaluations += 1
-            rep.keys.add(core.case_hash({k: c[k] for k in ("labels", "lshape", "batch", "chunks", "method", "expected")}))
+            rep.keys.add(core.case_hash({k: c.get(k) for k in ("labels", "lshape", "batch", "chunks", "method", "expected", "split_every")}))
+            rep.dist["graph:split_every=" + str(c.get("split_every"))] += 1
             rep.dist["graph:method=" + str(c["method"]) + "->" + str(r.get("resolved", r.get("err")))] += 1
             rep.dist["graph:" + c["gen"].split(":", 2)[2]] += 1
             for nte in r.get("notes", []):
